@@ -43,7 +43,10 @@ RULE = (
     "name/type/class as text, nameservers as address strings (Do53 enrichment, per-server ports), source address/port, "
     "one name asked for types X/Y/X; plus stand-alone candidate-name, chaining and _compute_timeout (clock also running "
     "backwards) cases; resolve_name for AF_UNSPEC/AF_INET/AF_INET6 (first lookup often using up most of the lifetime), "
-    "canonical_name, resolve_address, zone_for_name; multi-name request sequences through cache None / Cache() / "
+    "canonical_name, resolve_address, zone_for_name; call routes (all positional, all defaults omitted, enum members, "
+    "module-level resolve on the default resolver, deprecated query()), set_flags (incl. 0) / use_edns, nameservers and search "
+    "as tuples, a BaseException from the transport followed by further use of the resolver, TTLs up to 2^32-1, extended "
+    "rcodes, a clock beyond 2^32 s; multi-name request sequences through cache None / Cache() / "
     "LRUCache(1|2|3) with clock advances across TTLs (expiry, re-resolve, churn past capacity); "
     "a case is non-trivial if its key (configuration, requests, script) is new and it issued at least one query or cache probe"
 )
@@ -228,6 +231,7 @@ EXC_POOL = {
     "notimpl": [lambda: NotImplementedError()],
     "trunc": [lambda: dns.message.Truncated()],
     "timeout": [lambda: dns.exception.Timeout(timeout=1.0)],
+    "abort": [lambda: Abort("interrupted")],
     "other": [lambda: dns.query.UnexpectedSource("u"), lambda: dns.tsig.BadSignature(), lambda: RuntimeError("r"),
               lambda: ValueError("v"), lambda: KeyError("k"), lambda: dns.exception.DNSException("d"),
               lambda: dns.exception.SyntaxError("s")],
@@ -237,6 +241,11 @@ EXC_POOL = {
 # ------------------------------------------------------------------------------------------------
 # the scripted world
 # ------------------------------------------------------------------------------------------------
+class Abort(BaseException):
+    """a non-`Exception` raised by a transport in mid-query (the kind of thing KeyboardInterrupt is): the resolver must let
+    it through, and must be usable afterwards"""
+
+
 class Runaway(BaseException):
     """raised by the scripted nameservers when one resolution has issued far more queries than any terminating
     resolution can (a BaseException, so that the resolver's own `except Exception` cannot swallow it)"""
@@ -283,7 +292,8 @@ class World:
         sid = ns.sid if hasattr(ns, "sid") else addr_sid(ns.address)
         ev = {"ev": "q", "cand": hexl(q.name.labels), "sid": sid, "tcp": bool(tcp), "to": to, "t0": self.clock.ms,
               "spec": spec, "dur": dur, "qty": int(q.rdtype), "qcls": int(q.rdclass), "pos": self.pos - 1,
-              "src": source, "sport": source_port, "port": ns.answer_port(), "nsstr": str(ns)}
+              "src": source, "sport": source_port, "port": ns.answer_port(), "nsstr": str(ns),
+              "rflags": int(request.flags), "redns": (int(request.edns), int(request.ednsflags), int(request.payload))}
         self.events.append(ev)
         return spec, tag, dur, ev
 
@@ -379,6 +389,12 @@ class RecBackend(type(dns.asyncbackend.get_backend("asyncio"))):
         await super().sleep(interval)
 
 
+def _rebased(loop):
+    """the loop with its epoch moved to the present (exact float deadlines whatever the absolute clock value)"""
+    loop.rebase()
+    return loop
+
+
 _LOOP = None
 
 
@@ -411,7 +427,7 @@ def configure(res, cfg, world):
             if sid not in objs:
                 objs[sid] = ScriptedNS(sid, bool(am), world)
             servers.append(objs[sid])  # the same id twice = the same object listed twice
-    res.nameservers = servers
+    res.nameservers = tuple(servers) if cfg.get("nstuple") else servers
     res.search = [dns.name.Name(unhexl(s)) for s in cfg["search"]]
     res.domain = None if cfg["domain"] is None else dns.name.Name(unhexl(cfg["domain"]))
     res.ndots = cfg["ndots"]
@@ -420,6 +436,12 @@ def configure(res, cfg, world):
     res.lifetime = seconds(cfg["lifetime"])
     res.retry_servfail = bool(cfg["rsf"])
     res.rotate = False
+    if cfg.get("flags") is not None:
+        res.set_flags(cfg["flags"])
+    if cfg.get("edns") is not None:
+        res.use_edns(0, cfg["edns"][0], cfg["edns"][1])
+    if cfg.get("nstuple"):
+        res.search = tuple(res.search)
     if cfg["cache"] == 1:
         res.cache = dns.resolver.Cache()
     elif cfg["cache"] == 2:
@@ -473,6 +495,8 @@ def result_of(fn):
         return "NoMetaqueries", {"cls": "NoMetaqueries"}
     except (dns.name.NameTooLong, dns.name.LabelTooLong, dns.name.EmptyLabel, dns.name.AbsoluteConcatenation) as e:
         return f"NameError:{type(e).__name__}", {"cls": "NameError"}
+    except Abort:
+        return "Abort", {"cls": "Abort"}
     except BaseException as e:  # not a documented outcome
         return f"FOREIGN:{type(e).__name__}", {"cls": "FOREIGN", "exc": repr(e)}
     hasrr = a.rrset is not None
@@ -526,7 +550,7 @@ def aux_of(o):
     r = o["result"]
     errs = [(e[0], bool(e[1]), e[2], type(e[3]).__name__ if not isinstance(e[3], str) else "rcode:" + e[3], e[4] is not None)
             for e in r.get("errors", [])]
-    return json.dumps([[(e.get("src"), e.get("sport"), e.get("port"), e.get("nsstr")) for e in o["events"] if e["ev"] == "q"],
+    return json.dumps([[(e.get("src"), e.get("sport"), e.get("port"), e.get("nsstr"), e.get("rflags"), e.get("redns")) for e in o["events"] if e["ev"] == "q"],
                        r.get("port"), errs, len(r.get("msgs", [])), r.get("msg") is not None], default=str)
 
 
@@ -556,10 +580,41 @@ def _run_impl(case, mode, clock, world, loop):
                 qname = qname.to_text()
                 kw["rdtype"] = dns.rdatatype.to_text(rq["ty"])
                 kw["rdclass"] = dns.rdataclass.to_text(rq["cls"])
-            if mode == "sync":
-                line, r = result_of(lambda: res.resolve(qname, **kw))
-            else:
-                line, r = result_of(lambda: loop.run_until_complete(res.resolve(qname, backend=backend, **kw)))
+            call = rq.get("call")
+            pos = (qname, kw["rdtype"], kw["rdclass"], kw["tcp"], kw.get("source"), kw["raise_on_no_answer"], kw.get("source_port", 0),
+                   kw["lifetime"])
+            if call == "enum":
+                kw["rdtype"], kw["rdclass"] = dns.rdatatype.RdataType.make(rq["ty"]), dns.rdataclass.RdataClass.make(rq["cls"])
+            saved_default = (dns.resolver.default_resolver, dns.asyncresolver.default_resolver)
+            if call == "module":
+                dns.resolver.default_resolver = res
+                dns.asyncresolver.default_resolver = res
+            try:
+                if mode == "sync":
+                    if call == "pos":      # every argument positionally, in the documented order
+                        line, r = result_of(lambda: res.resolve(*pos, kw["search"]))
+                    elif call == "omit":   # every optional argument left to its default
+                        line, r = result_of(lambda: res.resolve(qname))
+                    elif call == "module":  # the module-level convenience function on the default resolver
+                        line, r = result_of(lambda: dns.resolver.resolve(qname, **kw))
+                    elif call == "query":  # the deprecated twin: resolve with search forced on
+                        import warnings
+                        with warnings.catch_warnings():
+                            warnings.simplefilter("ignore")
+                            line, r = result_of(lambda: res.query(*pos))
+                    else:
+                        line, r = result_of(lambda: res.resolve(qname, **kw))
+                else:
+                    if call == "pos":
+                        line, r = result_of(lambda: _rebased(loop).run_until_complete(res.resolve(*pos, kw["search"], backend)))
+                    elif call == "omit":
+                        line, r = result_of(lambda: _rebased(loop).run_until_complete(res.resolve(qname, backend=backend)))
+                    elif call == "module":
+                        line, r = result_of(lambda: _rebased(loop).run_until_complete(dns.asyncresolver.resolve(qname, backend=backend, **kw)))
+                    else:  # incl. "query", which has no asyncio twin: resolve with search=True is what it must equal
+                        line, r = result_of(lambda: _rebased(loop).run_until_complete(res.resolve(qname, backend=backend, **kw)))
+            finally:
+                dns.resolver.default_resolver, dns.asyncresolver.default_resolver = saved_default
             end = clock.ms
             after = cache_view(res, end)
             evs = world.events
@@ -663,18 +718,18 @@ def _run_name(case, mode, clock, world, loop):
             if mode == "sync":
                 line, r = _host_result(lambda: res.resolve_name(qname, fam, **kw))
             else:
-                line, r = _host_result(lambda: loop.run_until_complete(res.resolve_name(qname, fam, backend=backend, **kw)))
+                line, r = _host_result(lambda: _rebased(loop).run_until_complete(res.resolve_name(qname, fam, backend=backend, **kw)))
         elif entry == "canonical_name":
             if mode == "sync":
                 line, r = _host_result(lambda: res.canonical_name(qname))
             else:
-                line, r = _host_result(lambda: loop.run_until_complete(res.canonical_name(qname)))
+                line, r = _host_result(lambda: _rebased(loop).run_until_complete(res.canonical_name(qname)))
         elif entry == "resolve_address":
             kw.pop("search", None)
             if mode == "sync":
                 line, r = _host_result(lambda: res.resolve_address(rq["addr"], **kw))
             else:
-                line, r = _host_result(lambda: loop.run_until_complete(res.resolve_address(rq["addr"], backend=backend, **kw)))
+                line, r = _host_result(lambda: _rebased(loop).run_until_complete(res.resolve_address(rq["addr"], backend=backend, **kw)))
         else:  # zone_for_name: the synchronous function alone takes a lifetime
             line, r = _host_result(lambda: dns.resolver.zone_for_name(qname, IN, bool(rq["tcp"]), res, kw.get("lifetime")))
         end = clock.ms
@@ -818,6 +873,8 @@ def classify(ev, cfg):
         return ("broken",) if ev["tcp"] else ("trunc",)
     if tag in ("timeout", "other"):
         return ("soft",)
+    if tag == "abort":
+        return ("abort",)
     r = ev["resp"]
     rc = r["rcode"]
     if rc in (NOERROR, NXDOMAIN):
@@ -922,6 +979,11 @@ def oracle(ctx, case, obs, rep):
             want_str = f"Do53:{sid_addr(e['sid'])}@{ns_port(e['sid'])}" if cfg.get("route") == "str" else f"scripted:{e['sid']}"
             if e.get("src") != rq.get("src") or (e.get("sport") or 0) != (rq.get("sport") or 0):
                 fail("transport/source", f"{where}: query sent with source={e.get('src')!r} port={e.get('sport')!r}, caller gave {rq.get('src')!r}/{rq.get('sport', 0)!r}")
+                break
+            want_flags = cfg["flags"] if cfg.get("flags") is not None else int(dns.flags.RD)
+            want_edns = (0, cfg["edns"][0], cfg["edns"][1]) if cfg.get("edns") is not None else (-1, 0, 0)
+            if e.get("rflags") != want_flags or tuple(e.get("redns")) != want_edns:
+                fail("request/decoration", f"{where}: request sent with flags {e.get('rflags'):#06x} and EDNS {e.get('redns')}; configured flags {want_flags:#06x}, EDNS {want_edns}")
                 break
             if e.get("port") != ns_port(e["sid"]) or e.get("nsstr") != want_str:
                 fail("transport/nameserver-port", f"{where}: server {e['sid']} addressed as {e.get('nsstr')} port {e.get('port')}, configured {want_str}")
@@ -1072,6 +1134,10 @@ def oracle(ctx, case, obs, rep):
                     break
                 elif c[0] == "yx":
                     finished = "YXDOMAIN"
+                    seg_done = True
+                    break
+                elif c[0] == "abort":
+                    finished = "Abort"  # not the resolver's to handle: it must come out of resolve() as it is
                     seg_done = True
                     break
                 elif c[0] == "nx":
@@ -1316,11 +1382,18 @@ def eval_case(ctx: Ctx, c: dict, gen=None):
         structural_sync_async(ctx)
         return False
     if k == "run":
-        line, obs, tokens = run_impl(c, "sync", gen)
+        try:
+            line, obs, tokens = run_impl(c, "sync", gen)
+        except (ValueError, TypeError) as e:
+            # the resolver refused a documented form of its configuration (e.g. nameservers / search given as a tuple)
+            ctx.fail("C16/configure/rejected:" + type(e).__name__, f"configuring the resolver raised {e!r}", rep)
+            return False
         # from here on the script is fixed
         rep = {"kind": k, "case": c}
         evicted = oracle(ctx, c, obs, rep)
-        if evicted:
+        if any(st.get("e") == "abort" for st in c["script"]):
+            ctx.count("run.abort-not-modelled")  # BaseException pass-through is judged by the oracle and sync/async only
+        elif evicted:
             # a small LRU cache that had to evict is not the unbounded timed map of the Lean model: such histories are
             # judged by the oracle's reference LRU and the sync/async comparison only
             ctx.count("run.lru-evicting-not-modelled")
@@ -1464,9 +1537,9 @@ SUFFIXES = [[b"example", b""], [b"corp", b"test", b""], [b"Example", b""], [b"la
 TIMEOUTS = [125, 250, 500, 1000, 2000, 2000, 2000, 4000]
 LIFETIMES = [125, 250, 375, 500, 750, 1000, 1500, 2000, 3000, 5000, 5000, 8000]
 DUR_POOL = [0, 0, 1, 1, 2, 5, 10, 50, 99, 100, 101, 124, 125, 126, 250, 499, 500, 501, 999, 1000, 1999, 2000, 2001, 5000]
-TTL_POOL = [0, 1, 5, 30, 60, 300, 3600, 86400, 2 ** 31 - 1]
+TTL_POOL = [0, 1, 5, 30, 60, 300, 3600, 86400, 2 ** 31 - 1, 2 ** 31 - 1, 2 ** 31, 2 ** 32 - 1]
 QTYPES_IN = [A, A, A, AAAA, TXT, MX, CNAME]
-RCODES_OTHER = [1, 4, 5, 7, 8, 9, 10]
+RCODES_OTHER = [1, 4, 5, 7, 8, 9, 10, 11, 16, 18, 18, 23, 4095]
 
 
 def gen_qname(rng):
@@ -1483,7 +1556,7 @@ def gen_qname(rng):
 
 
 def gen_cfg(rng):
-    ns = rng.choice([0, 1, 1, 2, 2, 2, 3, 3, 4])
+    ns = rng.choice([0, 1, 1, 2, 2, 2, 3, 3, 4, 4, 8])
     servers = [[i, 1 if rng.chance(1, 7) else 0] for i in range(ns)]
     if ns >= 2 and rng.chance(1, 12):
         servers[rng.below(ns)] = list(servers[rng.below(ns)])  # the same nameserver object listed twice
@@ -1493,10 +1566,16 @@ def gen_cfg(rng):
         search.append([b"s" * 63, b"t" * 63, b"u" * 63, b""])
     domain = rng.choice([None, [b""], [b"dom", b""], [b"example", b""]])
     cfg = {"servers": servers, "search": [hexl(s) for s in search], "domain": None if domain is None else hexl(domain),
-           "ndots": rng.choice([None, None, 0, 1, 2, 3]), "usd": rng.below(2), "timeout": rng.choice(TIMEOUTS),
+           "ndots": rng.choice([None, None, 0, 1, 2, 3, 255]), "usd": rng.below(2), "timeout": rng.choice(TIMEOUTS),
            "lifetime": rng.choice(LIFETIMES), "rsf": rng.below(2), "cache": rng.choice([0, 1, 1, 1, 2])}
     if cfg["cache"] == 2:
         cfg["lru"] = rng.choice([50, 50, 1, 2, 3])
+    if rng.chance(1, 5):
+        cfg["flags"] = rng.choice([0, 0, 0x0100, 0x0110, 0x0020])  # 0 is a valid, falsy, flags value
+    if rng.chance(1, 6):
+        cfg["edns"] = rng.choice([[0, 1232], [0x8000, 4096], [0, 512]])
+    if rng.chance(1, 6) and cfg.get("route") != "str":
+        cfg["nstuple"] = 1
     if rng.chance(1, 40):
         cfg["timeout"] = 0  # falsy option value
     if rng.chance(1, 40):
@@ -1524,6 +1603,16 @@ def gen_req(rng, first):
         rq["sport"] = rng.choice([1, 5353, 65535])
     if rng.chance(1, 4):
         rq["text"] = 1  # name, type and class handed over as text
+    elif rng.chance(1, 3):
+        rq["call"] = rng.choice(["pos", "omit", "module", "query", "enum"])
+        if rq["call"] == "omit":
+            rq.update({"ty": A, "cls": IN, "tcp": 0, "rona": 1, "search": None, "life": None})
+            rq.pop("src", None)
+            rq.pop("sport", None)
+        if rq["call"] == "query":
+            rq["search"] = 1
+    if first and rng.chance(1, 12):
+        rq["gap"] = 2 ** 32 * 1000 + rng.choice([0, 5, 999])  # a clock beyond 2^32 seconds
     return rq
 
 
@@ -1652,13 +1741,24 @@ def gen_run(ctx, rng):
         for r in reqs[1:]:
             r["gap"] = rng.choice([0, 1, 1000, 5000])
         cfg["cache"] = rng.choice([1, 2])
+    for r in reqs:  # the call routes that fix some arguments, applied after the requests were related to each other
+        if r.get("call") == "omit":
+            r.update({"ty": A, "cls": IN, "tcp": 0, "rona": 1, "search": None, "life": None})
+            r.pop("src", None)
+            r.pop("sport", None)
+        if r.get("call") == "query":
+            r["search"] = 1
     profile = rng.choice(["mixed", "mixed", "mixed", "failing", "failing", "stalling", "stalling", "nx", "nx", "good"])
     if nreq == 3 and rng.chance(1, 2):
         profile = rng.choice(["good", "nx", "mixed"])
     case = {"kind": "run", "cfg": cfg, "reqs": reqs, "script": [], "profile": profile}
 
+    abort_at = rng.below(6) if rng.chance(1, 12) else None
+
     def gen(world, ns, request, timeout_ms, tcp):
         q = request.question[0]
+        if abort_at is not None and world.pos == abort_at:
+            return {"k": "x", "e": "abort", "v": 0, "d": rng.choice([0, 1, 5])}
         return gen_outcome(rng, profile, cfg, list(q.name.labels), int(q.rdclass), int(q.rdtype), timeout_ms)
 
     return case, gen
